@@ -28,6 +28,9 @@ Definition tokens_ja (t : tree) : list token := JaBank.tokens_ja normalize_table
            no '}', and the inflection field is not empty. *)
 Definition wf_ptb : tree -> Prop := PtbProofs.wf_ptb puncts.
 Definition wf_ja : tree -> Prop := JaBankProofs.wf_ja puncts normalize_table ja_reader_combinators.
+(* boolean versions (wf_ptbb t = true -> wf_ptb t, wf_jab t = true -> wf_ja t); the harness evaluates them on every generated tree *)
+Definition wf_ptbb : tree -> bool := PtbProofs.wf_ptbb puncts.
+Definition wf_jab : tree -> bool := JaBankProofs.wf_jab puncts normalize_table ja_reader_combinators.
 Definition JaText : tree -> text -> Prop := JaBankProofs.JaText normalize_table.
 Definition same_ja : tree -> tree -> Prop := JaBankProofs.same_ja normalize_table.
 
@@ -37,6 +40,11 @@ Proof.
   apply Forall_forall. intros s Hs. rewrite forallb_forall in H. specialize (H s Hs).
   rewrite !andb_true_iff, !negb_true_iff in H. tauto.
 Qed.
+
+Theorem C20_wf_ptb_decidable : forall t, wf_ptbb t = true -> wf_ptb t.
+Proof. exact (wf_ptbb_ok puncts). Qed.
+Theorem C20_wf_ja_decidable : forall t, wf_jab t = true -> wf_ja t.
+Proof. exact (wf_jab_ok puncts normalize_table ja_reader_combinators). Qed.
 
 (* ================================= PTB ================================= *)
 
